@@ -528,17 +528,19 @@ theorem substitute_sem_removing {α : Type _} (h m h' : NNet) (c : Nat) (hw : h.
         (∀ l, l < h5.net.lines.size → (¬ ∃ l', l' < h'.net.lines.size ∧ r.line l' = l) → ¬ S (h5.net.line l).driver →
           v l = lineEq h5.net (spN h5.net) z neg prim an v l) →
         ConsOff h5 S z neg prim an v) ∧
-      -- composed with `SubstSemStmt`: (1) a consistent labelling of `h'` extends to the circuit before the removal, where the
-      -- host is consistent outside the cell and the cell has the relational meaning of its (whole) implementation
-      (∀ an' v' : Nat → α, ConsOff h' (fun _ => False) z neg prim an' v' →
+      -- composed with `SubstSemStmt`, for every set `S` of host nodes other than the cell as holes: (1) a labelling of `h'` that is
+      -- consistent outside (the nodes that were) `S` extends to the circuit before the removal, where the host is consistent
+      -- outside `S ∪ {c}` and the cell has the relational meaning of its (whole) implementation
+      (∀ (S : Nat → Prop), (∀ s, S s → s < h.net.nodes.size ∧ s ≠ c) → ∀ an' v' : Nat → α,
+        ConsOff h' (fun j' => S (r.node j')) z neg prim an' v' →
         ∃ an5 v5 : Nat → α, (∀ l', l' < h'.net.lines.size → v5 (r.line l') = v' l') ∧ (∀ j', j' < h'.net.nodes.size → an5 (r.node j') = an' j') ∧
-          ConsOff h (fun d => d = c) z neg prim an5 v5 ∧
+          ConsOff h (fun d => S d ∨ d = c) z neg prim an5 v5 ∧
           ∃ sh anm vm, implShape m = some sh ∧ ImplMatches h c m sh z neg prim anm vm v5) ∧
-      -- (2) a labelling of the host consistent outside the cell + a matching labelling of the implementation give a
-      -- consistent labelling of `h'`
-      (∀ (sh : Shape) (an v anm vm : Nat → α), implShape m = some sh → ConsOff h (fun d => d = c) z neg prim an v →
-        ImplMatches h c m sh z neg prim anm vm v →
-        ∃ an5 v5 : Nat → α, ConsOff h' (fun _ => False) z neg prim (fun j => an5 (r.node j)) (fun l => v5 (r.line l)) ∧
+      -- (2) a labelling of the host consistent outside `S ∪ {c}` + a matching labelling of the implementation give a labelling
+      -- of `h'` consistent outside `S`
+      (∀ (S : Nat → Prop) (sh : Shape) (an v anm vm : Nat → α), implShape m = some sh →
+        ConsOff h (fun d => S d ∨ d = c) z neg prim an v → ImplMatches h c m sh z neg prim anm vm v →
+        ∃ an5 v5 : Nat → α, ConsOff h' (fun j' => S (r.node j')) z neg prim (fun j => an5 (r.node j)) (fun l => v5 (r.line l)) ∧
           (∀ l, l < h.net.lines.size → v5 l = v l) ∧ (∀ d, d < h.net.nodes.size → d ≠ c → an5 d = an d)) := by
   obtain ⟨h5, map, dang, sh, dn, r, hcore, ct, w', e, sq, ex⟩ :=
     substitute_removing z neg prim h m h' c (WF.of_wf hw) (WF.of_wf mw) hc hio hcf hr hok he
@@ -547,15 +549,15 @@ theorem substitute_sem_removing {α : Type _} (h m h' : NNet) (c : Nat) (hw : h.
     sq, fun l' hl => ⟨e.lineLt l' hl, (e.drv l' hl).2.1⟩, fun S an v hc => e.restrict S z neg prim an v hc,
     fun S an v hc hrem => e.extend S z neg prim an v hc hrem, ?_, ?_⟩
   rotate_left 2
-  · intro an' v' hc'
-    obtain ⟨an5, v5, c5, e1, e2⟩ := ex (fun _ => False) an' v' hc'
-    obtain ⟨f1, anm, vm, hM, _⟩ := ct.forward z neg prim (fun _ => False) (fun _ hs => absurd hs id) an5 v5 c5
-    exact ⟨an5, v5, e1, e2, consOff_congr (fun d => by simp) f1, sh, anm, vm, ct.shape, hM⟩
-  · intro sh' an v anm vm hs' hH hM
+  · intro S hS an' v' hc'
+    obtain ⟨an5, v5, c5, e1, e2⟩ := ex S an' v' hc'
+    obtain ⟨f1, anm, vm, hM, _⟩ := ct.forward z neg prim S hS an5 v5 c5
+    exact ⟨an5, v5, e1, e2, f1, sh, anm, vm, ct.shape, hM⟩
+  · intro S sh' an v anm vm hs' hH hM
     have : sh' = sh := Option.some.inj (hs'.symm.trans ct.shape)
     subst this
-    obtain ⟨an5, v5, c5, b1, b2, _⟩ := ct.backward z neg prim (fun _ => False) an v anm vm (consOff_congr (fun d => by simp) hH) hM
-    exact ⟨an5, v5, e.restrict (fun _ => False) z neg prim an5 v5 c5, b1, b2⟩
+    obtain ⟨an5, v5, c5, b1, b2, _⟩ := ct.backward z neg prim S an v anm vm hH hM
+    exact ⟨an5, v5, e.restrict S z neg prim an5 v5 c5, b1, b2⟩
   · exact ⟨sh, dn, map, ct.shape, ct.des, wf_of_WF ct.wf', ct.mapDn,
       fun j x hm => ⟨ct.mapM j x hm, ct.mapGe j x hm, ct.mapLt j x hm, ct.kind' j x hm⟩, ct.mapInj, ct.io', ct.frameNode, ct.lsize,
       fun S hS an' v' hc' => ct.forward z neg prim S hS an' v' hc',
